@@ -36,7 +36,7 @@ def similarity(data, vocab, normalize=False):
     if isinstance(vocab, Vocabulary):
         vectors = vocab.vectors
     elif is_iterable(vocab):
-        if isinstance(next(iter(vocab)), SemanticPointer):
+        if isinstance(next(iter(vocab), None), SemanticPointer):
             vocab = [p.v for p in vocab]
         vectors = np.array(vocab, ndmin=2)
     else:
